@@ -188,7 +188,7 @@ def check_path(run, rs, ctx, args, p, tag):
         assert len(rows) == 1
         emitted = pol[0] if pol else zero
         emitted, doc = xe.subst(ctx, [emitted, doc], sub)
-        run.identity(f"{tag}/emit", emitted, doc, replay=replay_emit(run, args, L, i, doc, ctx))
+        run.identity(f"{tag}/emit", emitted, doc, replay=replay_emit(run, args, L, i, doc, ctx, sub))
         others = [c for n_, c in row_polys(rs, L, i, free) if not n_.startswith("arith")]
         for k_, c in enumerate(others):
             run.identity(f"{tag}/no-other-family/{k_}", c, zero)
@@ -423,7 +423,7 @@ def replay_unique(run, args, L, out_idx):
     return rp
 
 
-def replay_emit(run, args, L, row, doc, ctx):
+def replay_emit(run, args, L, row, doc, ctx, sub=None):
     """model: values at which emitted != documented polynomial.  Reproduced iff
     the gate the real composer emits at these selector values, evaluated by
     the documented arithmetic-gate relation, differs from the documented
@@ -432,6 +432,10 @@ def replay_emit(run, args, L, row, doc, ctx):
         from checks.common import real_at
         from spec import rows as srows
         env = {k: v for k, v in _env_from_model(model, L).items() if not k.startswith("w")}
+        # variables fixed by the path condition (e.g. q_o == 0 on the branch under test)
+        for k, c in (sub or {}).items():
+            if getattr(c, "op", None) == "c" and not k.startswith("w"):
+                env[k] = "%064x" % (c.args[0] % R)
         rb = real_at(["component"] + args, env, run.seed)
         lay = rb["outputs"]["paths"][0]["layout"]
         sel = [int(x, 16) for x in lay["gates"][row][0]]
